@@ -17,7 +17,8 @@
     - [C15_holds c o] / [C15_ok c o] is the monitor that the check evaluates on
       the IMPLEMENTATION's scripts. *)
 From Coq Require Import List NArith Bool.
-From MWF Require Import Base.Str Gen.HeaderData Sched.Header Sched.Launcher Sched.Readers Sched.C15Proofs.
+From MWF Require Import Base.Str Gen.HeaderData Sched.Header Sched.Launcher Sched.Readers Sched.C15Proofs
+  Sched.LsfProofs.
 Import ListNotations.
 
 (** ** The monitor holds of the model, for every case (Slurm, Local) *)
@@ -99,6 +100,55 @@ Theorem C15_total_slurm_local : forall c, H15 c = true ->
 Proof. exact C15_total_lemma. Qed.
 Print Assumptions C15_total_slurm_local.
 
+(** ** LSF (extended): the same for bsub / jsrun.
+    [effective_lsf]: the node count defaults to the adapter's documented 1;
+    tasks and gpus are requested per jsrun call, never in the header;
+    [lsf_walltime_ok]: an "H:M:S" walltime comes back as "[hour:]minute" with
+    the same number of minutes (seconds rounded up), any other walltime
+    unchanged.  jsrun has no node flag: a token's node count is only checked.
+    Known findings excluded: K6b (no directive for qos / exclusive), K6c (a bare
+    launcher variable in a step that declares nodes only). *)
+Theorem C15_monitor_lsf : forall c,
+  c_be c = Lsf -> K6_lsf_header c = false -> K6_lsf_nodes_only c = false -> C15_ok c (run_model c) = true.
+Proof. exact C15_ok_lsf. Qed.
+Print Assumptions C15_monitor_lsf.
+
+Theorem C15_lsf_scheduled : forall c,
+  H15 c = true -> c_be c = Lsf -> K6_lsf_header c = false -> K6_lsf_nodes_only c = false ->
+  schedulable (c_step c) = true ->
+  (rejected c = true /\ run_model c = OExc Diag) \/
+  (rejected c = false /\ exists sc, run_model c = OScript sc /\ sc_sched sc = true
+     /\ lsf_header_reads c (sc_text sc) /\ lsf_launcher_reads c (c_cmd c) (sc_text sc)
+     /\ match st_restart (c_step c), sc_restart sc with
+        | [], None => True
+        | _ :: _, Some (_, rt) => lsf_header_reads c rt /\ lsf_launcher_reads c (c_restart c) rt
+        | _, _ => False
+        end).
+Proof. exact C15_lsf_sched_lemma. Qed.
+Print Assumptions C15_lsf_scheduled.
+
+Theorem C15_header_lsf : forall c text, lsf_header_reads c text ->
+  first_line text = shebang_of (c_batch c) /\
+  (forall k, In k [RNodes; RTasks; RQueue; RBank; RReservation; RGpus; RExclusive; RQos] ->
+     read_bsub text k = effective_lsf (c_batch c) (c_step c) k) /\
+  lsf_walltime_ok (effective (c_batch c) (c_step c) RWalltime) (read_bsub text RWalltime) = true /\
+  (forall k, In k [RWalltime; RNodes; RTasks; RQueue; RBank; RReservation; RGpus; RExclusive; RQos] ->
+     (count_key k (read_bsub_all text) <= 1)%nat).
+Proof. intros c text H. exact H. Qed.
+Print Assumptions C15_header_lsf.
+
+Theorem C15_launcher_lsf : forall c ps text, lsf_launcher_reads c ps text ->
+  containsb launcher_var (script_body text) = false /\
+  match_body (launch_ok_lsf (c_step c)) (ps ++ [PText [nl]]) (script_body text) = true.
+Proof. intros c ps text H. exact H. Qed.
+Print Assumptions C15_launcher_lsf.
+
+Theorem C15_total_lsf : forall c, H15 c = true -> c_be c = Lsf ->
+  (schedulable (c_step c) = true -> K6_lsf_header c = false /\ K6_lsf_nodes_only c = false) ->
+  run_model c <> OExc Internal.
+Proof. exact C15_total_lsf_lemma. Qed.
+Print Assumptions C15_total_lsf.
+
 (** ** The scanner was written against these regex texts (T-data) *)
 Theorem C15_regex_texts : regex_text_matches = true.
 Proof. vm_compute; reflexivity. Qed.
@@ -153,3 +203,40 @@ Definition ex_local : case :=
      c_cmd := [PText (s "echo hi")]; c_restart := [] |}.
 Example ex_local_in_domain : H15 ex_local = true.
 Proof. vm_compute. reflexivity. Qed.
+
+(** ** Known findings K6b, K6c (LSF) *)
+Definition lsf_batch : batch :=
+  {| b_kw := [(s "host", VStr (s "h")); (s "bank", VStr (s "b")); (s "queue", VStr (s "q"))]; b_args := [] |}.
+Definition k6b_witness : case :=
+  {| c_be := Lsf; c_batch := lsf_batch; c_broker := [];
+     c_step := {| st_name := s "s1"; st_desc := s "d"; st_cmd := s "$(LAUNCHER) a.out"; st_restart := [];
+                  st_res := [(s "nodes", VInt 2); (s "procs", VInt 4); (s "qos", VStr (s "standby"))] |};
+     c_cmd := [PBare; PText (s " a.out")]; c_restart := [] |}.
+Theorem C15_K6b_refuted : exists c,
+  H15 c = true /\ K6_lsf_header c = true /\ C15_holds c (run_model c) = false.
+Proof. exists k6b_witness. vm_compute. repeat split; reflexivity. Qed.
+Print Assumptions C15_K6b_refuted.
+
+Definition k6c_witness : case :=
+  {| c_be := Lsf; c_batch := lsf_batch; c_broker := [];
+     c_step := {| st_name := s "s1"; st_desc := s "d"; st_cmd := s "$(LAUNCHER) a.out"; st_restart := [];
+                  st_res := [(s "nodes", VInt 2)] |};
+     c_cmd := [PBare; PText (s " a.out")]; c_restart := [] |}.
+Theorem C15_K6c_refuted : exists c,
+  H15 c = true /\ K6_lsf_nodes_only c = true /\ C15_holds c (run_model c) = false.
+Proof. exists k6c_witness. vm_compute. repeat split; reflexivity. Qed.
+Print Assumptions C15_K6c_refuted.
+
+Definition ex_lsf : case :=
+  {| c_be := Lsf; c_batch := lsf_batch; c_broker := [];
+     c_step := {| st_name := s "run sim"; st_desc := s "d";
+                  st_cmd := s "$(LAUNCHER)[2n, 4p] a.out; $(LAUNCHER) b.out"; st_restart := s "$(LAUNCHER)[2p] a.out";
+                  st_res := [(s "nodes", VStr (s "2")); (s "procs", VInt 8); (s "walltime", VStr (s "01:29:31"));
+                             (s "rs per node", VInt 4); (s "gpus", VInt 1); (s "bind", VStr (s "packed:2"))] |};
+     c_cmd := [PTok (TNP (s "2") (s "4") 1); PText (s " a.out; "); PBare; PText (s " b.out")];
+     c_restart := [PTok (TP (s "2")); PText (s " a.out")] |}.
+Example ex_lsf_in_domain :
+  H15 ex_lsf = true /\ K6_lsf_header ex_lsf = false /\ K6_lsf_nodes_only ex_lsf = false
+  /\ schedulable (c_step ex_lsf) = true /\ rejected ex_lsf = false
+  /\ read_bsub (match run_model ex_lsf with OScript sc => sc_text sc | _ => [] end) RWalltime = Some (s "01:30").
+Proof. vm_compute. repeat split; reflexivity. Qed.
